@@ -298,3 +298,8 @@ def r16_6(prog, rep):
     ok = any(t == "isinstance(x, pd.Series)" and "self.x = x.values" in b for t, b in forms) and \
         any(t == "isinstance(x, (int, float))" and "self.x = x" in b for t, b in forms)
     obl(rep, oi, oi.node, "R16.6", ok, "Offset stores the column's values / the constant unchanged", str(forms))
+
+
+from ..core import guard_rules  # noqa: E402
+
+guard_rules(globals())
